@@ -130,6 +130,16 @@ class HeapMixin:
             if attr == "args":
                 return VTuple([v.msg] if v.msg is not None else [])
             raise E.Unsupported(f"exception attr {attr}")
+        if isinstance(v, VReal) and getattr(v, "unit", None) == "timedelta" and attr in ("days", "seconds", "microseconds"):
+            # the normalised fields of a timedelta: total = days*86400 + seconds + microseconds/1e6 with 0 <= seconds < 86400
+            days = z3.ToInt(v.t / 86400)
+            rest = v.t - z3.ToReal(days) * 86400
+            secs = z3.ToInt(rest)
+            if attr == "days":
+                return VInt(days)
+            if attr == "seconds":
+                return VInt(secs)
+            return VInt(z3.ToInt((rest - z3.ToReal(secs)) * 1000000))
         if isinstance(v, (VStr, VTuple, VInt, VReal)):
             return VBound(v, attr)
         if isinstance(v, VAny):
